@@ -17,6 +17,8 @@ type Ctx struct {
 	EntLen    *int64 // length of every []byte parameter of the entry point
 	WordCount *int64 // value of the int parameter of the entry point
 	TokCount  *int64 // number of tokens produced by the tokeniser
+	SizeKind  string    // "L", "W" or "N": which size SizeRange bounds
+	SizeRange *[2]int64 // when the size is not a single value: an interval containing it (a class of rejected sizes)
 	Lang      *IntV  // value of every Language-typed parameter of the entry point
 	// Infeasible blocks (from the gate analysis) for contexts that stand for a set of values
 	Infeasible map[*ssa.BasicBlock]bool
@@ -82,6 +84,7 @@ type loopCtx struct {
 	x0      map[*Obj]Content
 	mutated map[*Obj]bool
 	closed  map[string]closedForm // X-symbol name -> closed form
+	refs    map[string]Layout
 }
 
 type closedForm struct {
@@ -137,6 +140,11 @@ type Eval struct {
 	GlobalInit map[*ssa.Global]AV
 	GlobalObj  State
 	Digests    map[string]DigestInfo
+	refs       map[string]Layout // loop-invariant values referenced at offsets affine in t
+	mapGlobals []*Obj
+	Reads      []ReadInfo
+	errObj     map[ssa.Instruction]*Obj // per read call: what is known about its error on the current path
+	lastRets   []retRec                 // the individual returns of the function evaluated last
 }
 
 type LoopInfo struct {
@@ -198,6 +206,9 @@ func (e *Eval) bindParam(p *ssa.Parameter) AV {
 		if u.Info()&types.IsInteger != 0 {
 			if e.Ctx.WordCount != nil {
 				return CInt(*e.Ctx.WordCount)
+			}
+			if e.Ctx.SizeRange != nil && e.Ctx.SizeKind == "W" {
+				return RangeInt(e.Ctx.SizeRange[0], e.Ctx.SizeRange[1])
 			}
 			return TopInt("param " + p.Name())
 		}
@@ -368,6 +379,7 @@ func (e *Eval) evalFunc(fn *ssa.Function, args []AV, bindings []AV, st State, de
 		}
 		out = joinStates(out, r.st)
 	}
+	e.lastRets = fr.rets
 	if len(fr.rets) == 0 {
 		return []AV{TopV{"no feasible return"}}, st
 	}
@@ -386,6 +398,10 @@ func topContent(o *Obj, why string) Content {
 		return &ArrC{Top: why}
 	case okVec:
 		return VecC{}
+	case okMap:
+		return MapC{Top: why}
+	case okSB:
+		return SBC{Top: why}
 	}
 	return CellC{TopV{why}}
 }
@@ -394,6 +410,7 @@ func topContent(o *Obj, why string) Content {
 func (e *Eval) joinPreds(fr *frame, b *ssa.BasicBlock, within map[*ssa.BasicBlock]bool) (State, bool) {
 	var cur State
 	any := false
+	var preds []*ssa.BasicBlock
 	for _, p := range b.Preds {
 		k := [2]*ssa.BasicBlock{p, b}
 		if !fr.edgeOK[k] {
@@ -403,11 +420,61 @@ func (e *Eval) joinPreds(fr *frame, b *ssa.BasicBlock, within map[*ssa.BasicBloc
 			continue
 		}
 		s := fr.edge[k]
+		preds = append(preds, p)
 		if !any {
 			cur = s.clone()
 			any = true
 		} else {
 			cur = joinStates(cur, s)
+		}
+	}
+	// `if c { sb.WriteString(x) }`: the two incoming builder contents differ by a suffix written
+	// on one arm only; keep it as a conditional part instead of giving up
+	if len(preds) == 2 {
+		for o, c := range cur {
+			if o.Kind != okSB {
+				continue
+			}
+			if sc, ok := c.(SBC); !ok || sc.Top != "differs at merge" {
+				continue
+			}
+			s0, ok0 := fr.edge[[2]*ssa.BasicBlock{preds[0], b}][o].(SBC)
+			s1, ok1 := fr.edge[[2]*ssa.BasicBlock{preds[1], b}][o].(SBC)
+			if !ok0 || !ok1 || s0.Top != "" || s1.Top != "" {
+				continue
+			}
+			short, long, pLong, pShort := s0, s1, preds[1], preds[0]
+			if len(s0.Parts) > len(s1.Parts) {
+				short, long, pLong, pShort = s1, s0, preds[0], preds[1]
+			}
+			if len(long.Parts) == len(short.Parts) || (SBC{Parts: long.Parts[:len(short.Parts)]}).String() != short.String() {
+				continue
+			}
+			// pLong must be the arm of an If ending pShort
+			if len(pLong.Preds) != 1 || pLong.Preds[0] != pShort {
+				continue
+			}
+			ifi, ok := pShort.Instrs[len(pShort.Instrs)-1].(*ssa.If)
+			if !ok {
+				continue
+			}
+			bv, ok := e.val(fr, ifi.Cond).(BoolV)
+			if !ok {
+				continue
+			}
+			pol := pShort.Succs[0] == pLong
+			n := SBC{Parts: append([]SBPart{}, short.Parts...)}
+			good := true
+			for _, part := range long.Parts[len(short.Parts):] {
+				if part.Cond != nil || part.X != "" {
+					good = false
+				}
+				cb := bv
+				n.Parts = append(n.Parts, SBPart{V: part.V, Cond: &cb, Pol: pol})
+			}
+			if good {
+				cur[o] = n
+			}
 		}
 	}
 	return cur, any
@@ -519,7 +586,7 @@ func (e *Eval) evalBlockIn(fr *frame, b *ssa.BasicBlock, st State) {
 		case *ssa.Return:
 			vals := make([]AV, len(x.Results))
 			for i, r := range x.Results {
-				vals[i] = e.val(fr, r)
+				vals[i] = e.errOnPath(e.val(fr, r), st)
 			}
 			fr.rets = append(fr.rets, retRec{vals, st})
 			lp := fr.loop
@@ -547,7 +614,55 @@ func (e *Eval) afterLoop(fr *frame, b *ssa.BasicBlock) bool {
 // refineOnEdge: on the edge where an error value was compared with nil, remember the outcome
 // for that SSA value (so `return "", err` after `if err != nil` is known non-nil).
 func refineOnEdge(fr *frame, st State, cond ssa.Value, bv BoolV, taken bool) State {
-	return st
+	if bv.Known || bv.C == nil || bv.C.Kind != "isnil" {
+		return st
+	}
+	ev, ok := bv.C.A.(ErrV)
+	if !ok || ev.Kind != ekFrom || ev.Site == nil {
+		return st
+	}
+	isNil := (bv.C.Op == token.EQL) == (taken != bv.Neg)
+	e := fr.ev
+	n := st.clone()
+	if e.errObj == nil {
+		e.errObj = map[ssa.Instruction]*Obj{}
+	}
+	o := e.errObj[ev.Site]
+	if o == nil {
+		o = e.newObj(okCell, ev.Site, "outcome of "+ev.From)
+		e.errObj[ev.Site] = o
+	}
+	n[o] = CellC{KBool(isNil)}
+	if isNil {
+		for obj, c := range n {
+			if bc, ok := c.(BufC); ok && bc.B.Pending == ev.Site {
+				b := bc.B
+				b.Pending = nil
+				n[obj] = BufC{b}
+			}
+		}
+	}
+	return n
+}
+
+// errOnPath sharpens an error value with what the current path knows about the call it came from.
+func (e *Eval) errOnPath(v AV, st State) AV {
+	ev, ok := v.(ErrV)
+	if !ok || ev.Kind != ekFrom || ev.Site == nil {
+		return v
+	}
+	if o := e.errObj[ev.Site]; o != nil {
+		if c, ok := st[o].(CellC); ok {
+			if b, ok := c.V.(BoolV); ok && b.Known {
+				if b.Val {
+					return ErrV{Kind: ekNil}
+				}
+				ev.NonNil = true
+				return ev
+			}
+		}
+	}
+	return v
 }
 
 func (e *Eval) setEdge(fr *frame, from, to *ssa.BasicBlock, st State) {
@@ -788,9 +903,9 @@ func (e *Eval) instr(fr *frame, in ssa.Instruction, st State) {
 	case *ssa.MakeSlice:
 		fr.env[x] = e.makeSlice(fr, x, st)
 	case *ssa.MakeMap:
-		o := e.newObj(okCell, x, "map")
-		st[o] = CellC{TopV{"map"}}
-		fr.env[x] = TopV{"made map"}
+		o := e.newObj(okMap, x, "map")
+		e.setContentFresh(st, o, MapC{})
+		fr.env[x] = CMapV{O: o}
 	case *ssa.MakeClosure:
 		f := FuncV{Fn: x.Fn.(*ssa.Function)}
 		for _, b := range x.Bindings {
@@ -818,6 +933,31 @@ func (e *Eval) instr(fr *frame, in ssa.Instruction, st State) {
 			e.event("P4", Violated, x, "assignment to entry in nil map")
 		} else {
 			e.event("P4", Discharged, x, "map update on %v", m)
+		}
+		if cm, ok := m.(CMapV); ok {
+			if mc, ok := st[cm.O].(MapC); ok && mc.Top != "" {
+				e.setContent(fr, st, cm.O, mc) // still a mutation (loop summarisation tracks it)
+			}
+			if mc, ok := st[cm.O].(MapC); ok && mc.Top == "" {
+				k, okk := mapKey(e.val(fr, x.Key))
+				if !okk || len(e.activeLoops) > 0 && len(mc.Keys) > 64 {
+					e.setContent(fr, st, cm.O, MapC{Top: "entries not constant"})
+				} else if okk {
+					n := MapC{Keys: append([]string{}, mc.Keys...), Vals: append([]AV{}, mc.Vals...)}
+					found := false
+					for i := range n.Keys {
+						if n.Keys[i] == k {
+							n.Vals[i] = e.val(fr, x.Value)
+							found = true
+						}
+					}
+					if !found {
+						n.Keys = append(n.Keys, k)
+						n.Vals = append(n.Vals, e.val(fr, x.Value))
+					}
+					e.setContent(fr, st, cm.O, n)
+				}
+			}
 		}
 	case *ssa.TypeAssert:
 		if !x.CommaOk {
@@ -931,6 +1071,10 @@ func (e *Eval) escape(fr *frame, st State, v AV, why string) {
 		}
 	case SliceV:
 		e.setContent(fr, st, x.O, topContent(x.O, why))
+	case CMapV:
+		if _, local := st[x.O]; local {
+			e.setContent(fr, st, x.O, topContent(x.O, why))
+		}
 	case HashV:
 		e.setContent(fr, st, x.O, topContent(x.O, why))
 	case FuncV:
@@ -964,15 +1108,31 @@ func (e *Eval) alloc(fr *frame, x *ssa.Alloc, st State) AV {
 			e.setContentFresh(st, o, CellC{BytesV{LenKnown: true, Len: K(at.Len()), HasVal: true, Val: Layout{}, Src: "zero"}})
 			return PtrV{O: o}
 		}
-		if at.Len() <= 64 {
+		if at.Len() <= 4096 {
 			o := e.newObj(okVec, x, "array")
-			e.setContentFresh(st, o, VecC{make([]AV, at.Len())})
+			elems := make([]AV, at.Len())
+			if _, basic := at.Elem().Underlying().(*types.Basic); basic {
+				for i := range elems {
+					elems[i] = e.zeroOf(at.Elem())
+				}
+			}
+			e.setContentFresh(st, o, VecC{elems})
 			return PtrV{O: o}
 		}
+	}
+	if isNamed(et, "strings", "Builder") {
+		o := e.newObj(okSB, x, "strings.Builder")
+		e.setContentFresh(st, o, SBC{})
+		return PtrV{O: o}
 	}
 	o := e.newObj(okCell, x, "local "+x.Comment)
 	e.setContentFresh(st, o, CellC{nil})
 	return PtrV{O: o}
+}
+
+func isNamed(t types.Type, pkg, name string) bool {
+	n, ok := t.(*types.Named)
+	return ok && n.Obj().Pkg() != nil && n.Obj().Pkg().Path() == pkg && n.Obj().Name() == name
 }
 
 // setContentFresh installs the content of a newly allocated object (not a mutation of a carried object).
@@ -1514,6 +1674,15 @@ func (e *Eval) loadElem(fr *frame, x ssa.Instruction, el *ElemRef, st State) AV 
 		return StrV{Kind: skElem, List: b, Idx: el.Idx}
 	case *TokensV:
 		return StrV{Kind: skTok, Toks: b, Idx: el.Idx}
+	case BytesV:
+		// one byte of a byte string with known content
+		src := e.resolveBytes(b, st)
+		if c, ok := el.Idx.Const(); ok && src.LenKnown && src.Len.Const() && src.HasVal && !src.Min && c >= 0 && c < src.Len.A {
+			if v, ok := src.Val.Slice(8*(src.Len.A-1-c), 8); ok {
+				return BitsInt(v)
+			}
+		}
+		return RangeInt(0, 255)
 	case VecV:
 		if c, ok := el.Idx.Const(); ok && c >= 0 && c < int64(len(b.Elems)) && b.Elems[c] != nil {
 			return b.Elems[c]
@@ -1531,6 +1700,11 @@ func (e *Eval) loadElem(fr *frame, x ssa.Instruction, el *ElemRef, st State) AV 
 			if vc, ok := st[b.O].(VecC); ok {
 				if c, ok := el.Idx.Const(); ok && c >= 0 && c < int64(len(vc.Elems)) && vc.Elems[c] != nil {
 					return vc.Elems[c]
+				}
+			}
+			if cc, ok := st[b.O].(CellC); ok {
+				if bv, ok := cc.V.(BytesV); ok {
+					return e.loadElem(fr, x, &ElemRef{Base: bv, Idx: el.Idx}, st)
 				}
 			}
 		}
@@ -1560,6 +1734,9 @@ func (e *Eval) lenOf(fr *frame, a AV, st State) IntV {
 		if v.LenKnown {
 			return LinInt(v.Len)
 		}
+		if v.Param != nil && e.Ctx != nil && e.Ctx.SizeRange != nil && e.Ctx.SizeKind == "L" {
+			return RangeInt(e.Ctx.SizeRange[0], e.Ctx.SizeRange[1])
+		}
 		return RangeInt(0, math.MaxInt32)
 	case *ListV:
 		return CInt(int64(len(v.Elems)))
@@ -1582,6 +1759,11 @@ func (e *Eval) lenOf(fr *frame, a AV, st State) IntV {
 	case NilV:
 		return CInt(0)
 	case MapV:
+		return RangeInt(0, math.MaxInt32)
+	case CMapV:
+		if mc, ok := st[v.O].(MapC); ok && mc.Top == "" {
+			return CInt(int64(len(mc.Keys)))
+		}
 		return RangeInt(0, math.MaxInt32)
 	}
 	return TopInt("len of " + a.String())
@@ -1721,13 +1903,8 @@ func (e *Eval) slice(fr *frame, x *ssa.Slice, st State) AV {
 	case BytesV:
 		cl, okl := lo.Const()
 		ch, okh := hi.Const()
-		src := b
-		if b.Obj != nil {
-			if bc, ok := st[b.Obj].(BufC); ok {
-				src = bc.B
-				src.Obj = nil
-			}
-		}
+		src := e.resolveBytes(b, st)
+		src.Obj = nil
 		if full {
 			return b
 		}
@@ -1789,6 +1966,38 @@ func (e *Eval) lookup(fr *frame, x *ssa.Lookup, st State) AV {
 	var val AV = e.topOf(x.Type(), "map value")
 	okv := BoolV{C: &Cond{Kind: "lookupok", A: m, B: k}}
 	switch mv := m.(type) {
+	case CMapV:
+		mc, ok := st[mv.O].(MapC)
+		if !ok {
+			mc, ok = e.G.Objs[mv.O].(MapC)
+		}
+		if ok && mc.Top == "" {
+			if ks, okk := mapKey(k); okk {
+				if v, found := mc.get(ks); found {
+					val, okv = v, KBool(true)
+				} else {
+					okv = KBool(false)
+					if tup, ok := x.Type().(*types.Tuple); ok {
+						val = e.zeroOf(tup.At(0).Type())
+					} else {
+						val = e.zeroOf(x.Type())
+					}
+				}
+			} else {
+				var cur AV
+				for _, v := range mc.Vals {
+					cur = joinAV(cur, v)
+				}
+				if cur != nil {
+					val = joinAV(cur, e.zeroOf(func() types.Type {
+						if tup, ok := x.Type().(*types.Tuple); ok {
+							return tup.At(0).Type()
+						}
+						return x.Type()
+					}()))
+				}
+			}
+		}
 	case MapV:
 		// the value found in a word->index map: an 11-bit (list-length) symbol indexed by the token
 		if ks, isStr := k.(StrV); isStr && ks.Kind == skTok && ks.Idx.Kind == ikLin {
@@ -1833,6 +2042,13 @@ func (e *Eval) store(fr *frame, x *ssa.Store, st State) {
 				}
 				e.GlobalObj[pv.O] = st[pv.O]
 			}
+			if cm, ok := v.(CMapV); ok {
+				if e.GlobalObj == nil {
+					e.GlobalObj = State{}
+				}
+				e.GlobalObj[cm.O] = st[cm.O]
+				e.mapGlobals = append(e.mapGlobals, cm.O)
+			}
 			return
 		}
 		if e.builderMode {
@@ -1867,6 +2083,48 @@ func (e *Eval) storeElem(fr *frame, x *ssa.Store, el *ElemRef, v AV, st State) {
 					return
 				}
 			}
+			if cc, ok := st[b.O].(CellC); ok {
+				if bv, ok := cc.V.(BytesV); ok {
+					// one byte of a local byte array
+					c, okc := el.Idx.Const()
+					iv, okv := v.(IntV)
+					var nb Layout
+					okb := false
+					switch {
+					case okv && iv.Kind == ikBits:
+						if w, ok := iv.Bits.Width(); ok && w <= 8 {
+							nb, okb = iv.Bits.Norm(), true
+						}
+					case okv:
+						if cv, ok := iv.Const(); ok && cv == 0 {
+							nb, okb = Layout{}, true
+						}
+					}
+					if okc && okb && bv.LenKnown && bv.Len.Const() && bv.HasVal && !bv.Min && c >= 0 && c < bv.Len.A {
+						pos := 8 * (bv.Len.A - 1 - c)
+						lowPart, ok1 := bv.Val.Low(pos)
+						highPart, ok2 := bv.Val.Shr(pos + 8)
+						if ok1 && ok2 {
+							var out Layout
+							out = append(out, lowPart...)
+							if lw, _ := lowPart.Width(); lw < pos {
+								out = append(out, Field{W: K(pos - lw)})
+							}
+							out = append(out, nb...)
+							if bw, _ := nb.Width(); bw < 8 {
+								out = append(out, Field{W: K(8 - bw)})
+							}
+							out = append(out, highPart...)
+							n := bv
+							n.Val = out.Norm()
+							e.setContent(fr, st, b.O, CellC{n})
+							return
+						}
+					}
+					e.setContent(fr, st, b.O, CellC{BytesV{LenKnown: bv.LenKnown, Len: bv.Len, Src: "⊤: byte written"}})
+					return
+				}
+			}
 			e.setContent(fr, st, b.O, topContent(b.O, "element store"))
 			return
 		}
@@ -1879,6 +2137,11 @@ func (e *Eval) storeElem(fr *frame, x *ssa.Store, el *ElemRef, v AV, st State) {
 					cur, _ := e.GlobalInit[b.G].(VecV)
 					if cur.Elems == nil {
 						cur.Elems = make([]AV, at.Len())
+						if _, basic := at.Elem().Underlying().(*types.Basic); basic {
+							for i := range cur.Elems {
+								cur.Elems[i] = e.zeroOf(at.Elem())
+							}
+						}
 					} else {
 						cur.Elems = append([]AV{}, cur.Elems...)
 					}
